@@ -241,9 +241,10 @@ def campaign_cast(ck: Check) -> None:
     camp = ck.campaign("con.cast (int()/float() casts of bounds) vs get_data_type kwargs and _get_strict_field_constraint_value")
     t0 = time.time()
     mod = _mods()["v2"]
-    decs = [(15, 1), (7, 0), (-25, 1), (-3, 0), (20, 1), (5, 1), (-5, 1), (125, 2), (0, 0)]
+    decs = [(15, 1), (7, 0), (-25, 1), (-3, 0), (20, 1), (5, 1), (-5, 1), (125, 2), (0, 0), (2**53 + 1, 0), (2**63 - 1, 0), (-(2**53) - 1, 0)]
     kwmap = {"minimum": "ge", "maximum": "le", "exclusiveMinimum": "gt", "exclusiveMaximum": "lt", "multipleOf": "multiple_of"}
-    cases = [(r, f, kw, m, e) for r in ("contype", "field") for f in ("int", "num") for kw in kwmap for (m, e) in decs]
+    # beyond 2**53 only integer-typed schemas and the bounds proper (a `number` is a double anyway; multipleOf is typed float)
+    cases = [(r, f, kw, m, e) for r in ("contype", "field") for f in ("int", "num") for kw in kwmap for (m, e) in decs if abs(m) <= 2**53 or (f == "int" and kw != "multipleOf")]
     replies = ck.driver.run([f"con.cast {r} {f} {hx(kwmap[kw])} {m} {e}" for r, f, kw, m, e in cases])
     for (r, f, kw, m, e), rep in zip(cases, replies):
         camp.evaluations += 1
@@ -266,9 +267,17 @@ def campaign_cast(ck: Check) -> None:
         if got is None and r == "contype" and v == 0:
             camp.unmodelled += 1  # {"gt": 0} / {"lt": 0} alone are written as PositiveInt / NegativeFloat …: no keyword at all
             continue
+        if e == 0 and abs(m) > 2**53 and kw in ("exclusiveMinimum", "exclusiveMaximum"):
+            camp.hit("known:big_exclusive_bound_through_float")  # D42: JsonSchemaObject types exclusive bounds as float
+            continue
         camp.hit("truncated" if got != v else "exact")
         camp.distinct.add((r, f, kw, m, e))
-        if got is None or isinstance(got, str) or float(got) != float(model_v):
+        from fractions import Fraction
+
+        def exact(x):  # integers are compared as integers (a double cannot tell 2**53 from 2**53 + 1)
+            return Fraction(x) if isinstance(x, int) else Fraction(repr(float(x)))
+
+        if got is None or isinstance(got, str) or exact(got) != exact(model_v):
             ck.disagree(camp, {"routing": r, "fam": f, "keyword": kw, "value": v}, model_v, got)
         elif len(camp.samples) < 2 and got != v:
             camp.samples.append({"routing": r, "fam": f, "keyword": kw, "value": v, "written": got})
@@ -355,6 +364,12 @@ def _body(doc: dict) -> dict:
 
 def diff_cause(d: semrun.Diff) -> str:
     leaf = d.leaf or {}
+    if d.keyword in ("exclusiveMinimum", "exclusiveMaximum"):
+        v = leaf.get(d.keyword)
+        if isinstance(v, int) and not isinstance(v, bool) and abs(v) > 2**53:
+            return "big_exclusive_bound_through_float"
+    if d.keyword == "pattern" and "|" in d.path and "," in str(leaf.get("pattern", "")):
+        return "comma_in_pattern_in_union"
     if d.keyword in semgen.BOUND_KEYS and leaf.get("type") == "integer":
         v = leaf.get(d.keyword)
         if isinstance(v, float) and v != int(v):
@@ -369,12 +384,39 @@ def diff_cause(d: semrun.Diff) -> str:
     return "none"
 
 
+def _union_sibling_requires_const(doc: Any, name: str) -> bool:
+    """some union of the document has an alternative that declares `name` as a required `const` member"""
+    if isinstance(doc, list):
+        return any(_union_sibling_requires_const(x, name) for x in doc)
+    if not isinstance(doc, dict):
+        return False
+    root = doc
+    def alt_has(a: Any) -> bool:
+        return isinstance(a, dict) and name in a.get("required", []) and "const" in ((a.get("properties") or {}).get(name) or {})
+
+    def walk(s: Any) -> bool:
+        if isinstance(s, list):
+            return any(walk(x) for x in s)
+        if not isinstance(s, dict):
+            return False
+        for key in ("anyOf", "oneOf"):
+            if isinstance(s.get(key), list) and any(alt_has(semgen.resolve(root, a) if isinstance(a, dict) else a) for a in s[key]):
+                return True
+        return any(walk(v) for v in s.values())
+
+    return walk(doc)
+
+
 def mutation_cause(doc: dict, m: semgen.Mutation) -> str:
     if m.keyword == "required":
         psch = semgen.resolve(doc, m.leaf.get("properties", {}).get(m.path[-1], {}))
         if m.cause in ("required_nullable_member", "allOf_required_inherited_member"):
             return m.cause
         if "const" in psch:
+            return "required_const_member"
+        if m.in_union and _union_sibling_requires_const(doc, m.path[-1]):
+            # the object was told apart from a sibling alternative only by this member; the sibling declares it
+            # as a required `const` (optional with a default in v1-style output: D30) and takes the value over
             return "required_const_member"
     return m.cause
 
@@ -419,7 +461,10 @@ def oracle_doc(ck: Check, camp, doc: dict, style: str, routing: str, insts: list
             nfi = semrun.NF(doc).nf(_body(doc))
             nfr = semrun.NF(rep).nf(_body(rep))
             for d in semrun.compare(nfi, nfr, style):
-                cls = {**base, "oracle": "schema_keyword_lost", "keyword": d.keyword, "location": d.location, "cause": diff_cause(d), "in_union": "|" in d.path}
+                dc = diff_cause(d)
+                if dc == "none" and style == "v1" and d.keyword == "enum" and (d.leaf or {}).get("const") and semgen.allof_required_const(doc):
+                    dc = "v1_const_member_required_by_allOf"  # `Field(..., const=True)`: the reported constant is null (C03's D41)
+                cls = {**base, "oracle": "schema_keyword_lost", "keyword": d.keyword, "location": d.location, "cause": dc, "in_union": "|" in d.path}
                 ck.fail(cls, {**inp, "path": d.path}, f"reported schema at {d.path}: `{d.keyword}` expected {d.expected!r}, reported {d.got!r}")
             camp.hit("schema_compared")
         if len(camp.samples) < 2 and muts:
@@ -459,6 +504,12 @@ def focused_docs() -> list[tuple[str, dict]]:
     docs.append(("member_required", {"title": "Model", "type": "object", "properties": dict(L), "required": names, "additionalProperties": False}))
     docs.append(("member_optional", {"title": "Model", "type": "object", "properties": dict(L), "required": names[:1]}))
     docs.append(("array_item", {"title": "Model", "type": "object", "properties": {k: {"type": "array", "items": v} for k, v in L.items()}, "required": names}))
+    # the same leaves, nullable through a type list (`"type": [T, "null"]`)
+    NL = {k: {**v, "type": [v["type"], "null"]} for k, v in L.items() if v.get("type") in ("integer", "number", "string", "boolean") and "enum" not in v}
+    NL["numBoth"] = {"type": ["number", "null"], "minimum": 0.5, "maximum": 2.75}
+    NL["numExcl"] = {"type": ["number", "null"], "exclusiveMinimum": 0.25, "exclusiveMaximum": 0.75}
+    docs.append(("member_nullable", {"title": "Model", "type": "object", "properties": dict(NL), "required": ["flag"]}))
+    docs.append(("array_item_nullable", {"title": "Model", "type": "object", "properties": {k: {"type": "array", "items": v} for k, v in NL.items()}}))
     docs.append(("ref_def", {"title": "Model", "type": "object", "properties": {k: {"$ref": f"#/definitions/D{k}"} for k in L}, "required": names, "definitions": {f"D{k}": v for k, v in L.items()}}))
     docs.append(
         (
@@ -498,6 +549,11 @@ def focused_docs() -> list[tuple[str, dict]]:
             },
         )
     )
+    docs += allof_required_docs()
+    # integer bounds that are exact as integers and not as doubles, and the edges of int64
+    big = {"lo53": {"type": "integer", "minimum": 2**53 + 1}, "hi63": {"type": "integer", "maximum": 2**63 - 1}, "hi53": {"type": "integer", "maximum": 2**53 + 3}, "neg": {"type": "integer", "minimum": -(2**53) - 1}, "both": {"type": "integer", "minimum": 2**53 + 1, "maximum": 2**53 + 5}}
+    docs.append(("big_integer_bounds", {"title": "Model", "type": "object", "properties": big, "required": list(big)}))
+    docs.append(("big_integer_bounds_items", {"title": "Model", "type": "object", "properties": {k: {"type": "array", "items": v} for k, v in big.items()}}))
     for k in ("minimum", "maxLength", "minItems"):
         docs.append((f"root_{k}", {"title": "Model", **L[k]}))
     mapping = {"cat": "#/definitions/Cat", "dog": "#/definitions/Dog"}
@@ -517,6 +573,27 @@ def focused_docs() -> list[tuple[str, dict]]:
         )
     )
     return docs
+
+
+def allof_required_docs() -> list[tuple[str, dict]]:
+    """`required` stated at the allOf level — by a property-less member, or next to `allOf` — naming members the
+    class declares itself, among them members whose JSON name is not their Python name (not an identifier,
+    a keyword, camel case under --snake-case-field)"""
+    inline = {
+        "type": "object",
+        "properties": {"order-id": {"type": "string"}, "class": {"type": "string", "maxLength": 8}, "OrderId": {"type": "integer", "minimum": 0}, "qty": {"type": "integer"}, "note": {"type": "string"}},
+    }
+    base = {"Base": {"type": "object", "properties": {"a": {"type": "string"}, "b": {"type": "integer"}}, "required": ["a"]}}
+    names = ["order-id", "class", "OrderId", "qty"]
+    return [
+        ("allOf_required_renamed", {"title": "Model", "allOf": [{"$ref": "#/definitions/Base"}, inline, {"required": names}], "definitions": base}),
+        ("allOf_required_renamed_noref", {"title": "Model", "allOf": [inline, {"required": names}]}),
+        ("allOf_required_sibling", {"title": "Model", "allOf": [{"$ref": "#/definitions/Base"}, inline], "required": names, "definitions": base}),
+        (
+            "allOf_required_nested",
+            {"title": "Model", "type": "object", "properties": {"m": {"allOf": [{"$ref": "#/definitions/Base"}, inline, {"required": names[:2]}]}}, "required": ["m"], "definitions": base},
+        ),
+    ]
 
 
 def ap_value_docs() -> list[tuple[str, dict]]:
@@ -541,6 +618,70 @@ def campaign_focused(ck: Check) -> None:
         for st in STYLES:
             for r in ROUTINGS:
                 oracle_doc(ck, camp, doc, st, r, insts, muts)
+            if label.startswith("allOf_required"):
+                oracle_doc(ck, camp, doc, st, "snake", insts, muts)  # --snake-case-field: camel-case members are renamed too
+    camp.wall_s = time.time() - t0
+
+
+def campaign_pfields(ck: Check, n: int) -> None:
+    """own fields of an allOf class WITH their Python names: Lean (`markRequired ∘ parseFields` with the field-name
+    resolver of Dcg.Model.Names) vs the field objects of the real parser (name, original_name, required)"""
+    camp = ck.campaign("sem.pfields (Model.Translate.markRequired ∘ parseFields, resolver of Model.Names) vs the parser's fields (name, original_name, required)")
+    t0 = time.time()
+    rng = ck.rng.fork("pfields")
+    docs = [d for _l, d in allof_required_docs() if "allOf" in d and "required" not in d]
+    for i in range(n):
+        doc, feats = semgen.gen_doc(rng.fork(str(i)), semgen.GenCfg(boost="allOf", unions=False, dict_values=False, roots=False))
+        # allOf classes that are definitions or the document itself are addressable in the parser's results
+        body = semlean.body_of(doc)
+        for nm, sub in [("", body), *(doc.get("definitions") or {}).items()]:
+            if isinstance(sub, dict) and "allOf" in sub:
+                docs.append({"title": "Model", **{k: v for k, v in sub.items()}, "definitions": doc.get("definitions", {})})
+        for pn, ps in (body.get("properties") or {}).items():
+            if isinstance(ps, dict) and "allOf" in ps and "required" not in ps:
+                docs.append({"title": "Model", **ps, "definitions": doc.get("definitions", {})})
+    reqs, meta = [], []
+    for doc in docs:
+        try:
+            ssx = semlean.schema_sx(semlean.body_of(doc), top=True)
+        except semlean.Unmodelled:
+            camp.unmodelled += 1
+            continue
+        if not ssx.startswith("(allOf"):
+            continue
+        for st in STYLES:
+            for sn in (0, 1):
+                reqs.append(f"sem.pfields {st} contype {sn} {ssx}")
+                meta.append((doc, st, sn))
+    replies = ck.driver.run(reqs)
+    for (doc, st, sn), rep in zip(meta, replies):
+        camp.evaluations += 1
+        if not rep.startswith("ok"):
+            camp.unmodelled += 1
+            camp.hit(f"model:{rep[:20]}")
+            continue
+        model = [(unhx(x[0]), unhx(x[1]), x[2] == "1") for x in semlean.parse_sx(rep[2:])]
+        try:
+            ri = semlean.RealIR(doc, st, "contype", {"snake_case_field": bool(sn)})
+            dm = ri.root_model()
+            if dm is None or not dm.base_classes and not any(True for _ in dm.fields):
+                camp.unmodelled += 1
+                continue
+            real = [(f.name, f.original_name if f.original_name is not None else f.name, bool(f.required)) for f in dm.fields]
+        except Exception as e:  # noqa: BLE001
+            camp.unmodelled += 1
+            camp.hit(f"parser-raised:{type(e).__name__}")
+            continue
+        renamed = any(a != b for a, b, _ in real)
+        camp.hit("renamed_member" if renamed else "names_unchanged")
+        camp.hit("snake" if sn else "plain")
+        if any(a != b and r for a, b, r in model):
+            camp.hit("renamed_member_required")
+        camp.distinct.add(hash((semgen.canon(doc), st, sn)))
+        if model != real:
+            ck.disagree(camp, {"doc": doc, "style": st, "snake_case_field": bool(sn)}, model, real)
+        elif len(camp.samples) < 2 and renamed:
+            camp.samples.append({"doc": doc, "style": st, "snake_case_field": bool(sn), "fields": model})
     camp.wall_s = time.time() - t0
 
 
@@ -618,6 +759,7 @@ def run(ck: Check) -> None:
     campaign_normalise(ck, 400 if quick else 4000)
     campaign_cast(ck)
     campaign_validn(ck, 40 if quick else 300)
+    campaign_pfields(ck, 60 if quick else 600)
     campaign_focused(ck)
     campaign_random(ck, 80 if quick else 1200)
     ck.search_hooks.append(search_broken_keyword)
